@@ -239,6 +239,22 @@ REGEX = ["a", "^b$", "a|b", ".", "^$", "[ab]+", "c"]
 STRS = ["a", "b", "ab", "", 1, None, True, 1.5]
 
 
+LM = [[{"x": 1, "y": 2}], [{"y": 2, "x": 1}], [{"x": 1, "y": 3}], [{"x": 1}], [[1, {"y": 2, "x": 1}]], [[1, {"x": 1, "y": 2}]]]
+
+
+def h_list_of_mappings(i0: int, i1: int, q: int, form: int, ns: int):
+    """list values that contain mappings (hashed through _hashable_dict): equality must not depend on the key order inside the mapping"""
+    assert 0 <= i0 < 6 and 0 <= i1 < 6 and 0 <= q < 6 and 0 <= form <= 3 and 0 <= ns <= 1
+    fresh_path()
+    v0, v1, qq, form, ns = pick(LM, i0), pick(LM, i1), pick(LM, q), ci(form, 0, 3), ci(ns, 0, 1)
+    c = corpus2(ns, {"a": v0}, {"a": v1})
+    k = pfx(ns, "a", 0)
+    flt = [{k: qq}, {k: {"$eq": qq}}, {k: {"$in": [qq, 5]}}, {"$not": {k: qq}}][form]
+    ok = agree(c, flt)
+    reached()
+    assert ok
+
+
 NUM2 = [False, True, 0, 0.0, 1, 1.0, -1, -1.0, -2, -2.0, 2, 1.5]
 
 
@@ -433,6 +449,7 @@ HARNESSES = [
     dict(name="h_exists", timeout=(300, 900)),
     dict(name="h_type", timeout=(400, 900), parts=(6, 6)),
     dict(name="h_type_num", timeout=(300, 900), parts=(3, 3)),
+    dict(name="h_list_of_mappings", timeout=(300, 900)),
     dict(name="h_regex", timeout=(300, 900)),
     dict(name="h_near", timeout=(300, 900)),
     dict(name="h_logic", twin="h_logic__reach", timeout=(400, 900), parts=(10, 10)),
